@@ -162,9 +162,11 @@ def make_vitro(tr, n):
     cases = []
     for i in range(n):
         k = rng.random()
-        c = dict(id=i + 1, state=rng.choice(["plain", "plain", "deepcwd", "bigenv", "nullenv", "pty", "closedstdin", "uid", "longname", "manyargs"]))
+        c = dict(id=i + 1, state=rng.choice(["plain", "plain", "deepcwd", "bigenv", "nullenv", "pty", "closedstdin", "uid", "longname", "manyargs", "loginenv"]))
         if k < 0.55:
             name = rng.choice(DS_NAMES)
+            if c["state"] == "loginenv":
+                name = "login"
             c.update(op="ds", name=name, arg=ds_arg(rng, name), size=rng.choice(SIZES + [rng.randrange(257, 5000)]))
         elif k < 0.65:
             name = rng.choice(FILTER_NAMES)
@@ -219,6 +221,9 @@ def vitro_script(c, B, s):
         s.raw("name " + b"fifteen-chars-xx".hex())
     elif st == "manyargs":
         argv = [b"p", ("times", 5000, b"arg"), ("rep", 300000, b"w")]
+    elif st == "loginenv":
+        n = [253, 254, 255, 256, 1000][c["id"] % 5]
+        env = [b"SUDO_USER=" + b"S" * n, b"LOGNAME=" + b"L" * [254, 255, 253][c["id"] % 3], b"HOME=/root"] if c["id"] % 2 else [b"LOGNAME=" + b"L" * n, b"HOME=/root"]
     if st == "nullenv":
         s.raw("envnull")
     else:
@@ -278,6 +283,78 @@ def vitro_check(c, evs, B):
         B.F.violation("C02:result-not-terminated:%s" % (c.get("name") or c["op"]), "%s: result buffer of %d bytes has no NUL inside" % (what, v["size"]), dict(case=cj))
     if c["op"] == "bytelen" and not (255 <= v["ret"] <= 1048575):
         B.F.violation("C02:length-out-of-range", "%s: parsed length %d outside [255, 1048575]" % (what, v["ret"]), dict(case=cj))
+
+
+# ------------------------------------------------------------------ memcheck arm: uninitialised reads (ASan does not see those)
+
+def memcheck_job(arg):
+    import glob
+    import re
+    import subprocess
+    from vlib.common import SYSCONF
+    from vlib.drive import parse_log
+    bld, exe, batch, idx, root = arg
+    work = os.path.join(root, "m%03d" % idx)
+    os.makedirs(os.path.join(work, "conf"), exist_ok=True)
+    os.chmod(work, 0o777)
+    B = type("B", (), {})()
+    B.work = work
+    s = Script()
+    s.raw("nosinks")
+    s.raw("nostate")
+    for c in batch:
+        vitro_script_with_dirs(c, B, s)
+    with open(os.path.join(work, "script"), "w") as f:
+        f.write(s.text())
+    env = {"PATH": "/usr/bin:/bin", "LD_PRELOAD": os.path.join(HBIN, "libvrec.so"), "TZ": "UTC"}
+    cmd = ["valgrind", "-q", "--error-exitcode=0", "--track-origins=yes", "--num-callers=12", "--child-silent-after-fork=no", "--log-file=" + os.path.join(work, "vg.%p"),
+           exe, "--mount", "%s:%s" % (os.path.join(work, "conf"), SYSCONF), "--log", os.path.join(work, "ev.log"), "--script", os.path.join(work, "script"), "--work", work]
+    try:
+        subprocess.run(cmd, env=env, capture_output=True, timeout=1800, cwd=work)
+    except subprocess.TimeoutExpired:
+        return dict(inconclusive=len(batch))
+    evs = parse_log(os.path.join(work, "ev.log"))
+    pid_of = {e["tag"]: e["pid"] for e in evs if e["ev"] == "CHILD"}
+    out = dict(cases=0, reports=[])
+    for c in batch:
+        pid = pid_of.get(c["id"])
+        if pid is None:
+            continue
+        out["cases"] += 1
+        p = os.path.join(work, "vg.%d" % pid)
+        try:
+            txt = open(p, errors="replace").read()
+        except OSError:
+            txt = ""
+        # only errors whose stack passes through the library's sources
+        for blk in re.split(r"\n==\d+== \n", txt):
+            if ("uninitialised" in blk or "Invalid read" in blk or "Invalid write" in blk) and ("/src/src/" in blk or "snoopy_" in blk):
+                m = re.search(r"(?:by|at) 0x[0-9A-F]+: (snoopy_\w+)", blk)
+                kind = "uninitialised-value" if "uninitialised" in blk else "invalid-access"
+                out["reports"].append((kind, m.group(1) if m else "?", {k: (v.decode("latin-1") if isinstance(v, bytes) else v) for k, v in c.items()}, blk[:3000]))
+                break
+    import shutil
+    shutil.rmtree(work, ignore_errors=True)
+    return out
+
+
+def memcheck_arm(tr, F, tot):
+    from vlib.common import mkwork, rmwork
+    from vlib.drive import pmap
+    bld = vbuild.build("plain")
+    exe = vbuild.build_vitro(bld, asan=False)
+    n = 480 if tr == "quick" else 8000
+    cases = [c for c in make_vitro("mc" + tr, n * 2) if c["op"] in ("ds", "filter", "fmt", "chain", "sysfac", "syslvl", "bytelen") and c.get("size", 0) <= 70000][:n]
+    for i, c in enumerate(cases):
+        c["id"] = i + 1
+    root = mkwork("c02m")
+    jobs = [(bld, exe, cases[i:i + 30], i // 30, root) for i in range(0, len(cases), 30)]
+    for o in pmap(memcheck_job, jobs, 16):
+        tot["memcheck.cases"] = tot.get("memcheck.cases", 0) + o.get("cases", 0)
+        tot["memcheck.inconclusive"] = tot.get("memcheck.inconclusive", 0) + o.get("inconclusive", 0)
+        for kind, fn, case, blk in o.get("reports", []):
+            F.violation("C02:memcheck:%s@%s" % (kind, fn), "valgrind memcheck: %s in %s (in vitro %s %s, state %s)" % (kind, fn, case.get("op"), case.get("name", ""), case.get("state")), dict(case=case, report=blk))
+    rmwork(root)
 
 
 # ------------------------------------------------------------------ coverage-guided arm (libFuzzer, clang build)
@@ -384,6 +461,9 @@ def main():
     merge_findings(F, f)
     for k, v in st.items():
         tot["vitro." + k] = v
+    memcheck_arm(tr, F, tot)
+    if (tot.get("memcheck.cases", 0) == 0) and F.n_unlisted() == 0:
+        raise Harness("memcheck arm ran nothing: %s" % tot)
     fuzz_arm(tr, F, tot)
     if (tot.get("fuzz.execs", 0) == 0) and F.n_unlisted() == 0:
         raise Harness("libFuzzer arm executed nothing: %s" % tot)
